@@ -291,6 +291,8 @@ type stateProgress struct {
 	resultOnce sync.Once
 	// Used to track subinclude() calls that block until targets are built. Keyed by their label.
 	pendingTargets *cmap.Map[BuildLabel, chan struct{}]
+	// Guards closing of the channels in pendingTargets (which may be attempted more than once)
+	pendingTargetMutex sync.Mutex
 	// Used to track general package parsing requests. Keyed by a packageKey struct.
 	pendingPackages *cmap.Map[packageKey, chan struct{}]
 	// similar to pendingPackages but consumers haven't committed to parsing the package
@@ -558,8 +560,20 @@ func (state *BuildState) LogBuildResult(target *BuildTarget, status BuildResultS
 	})
 	if status == TargetBuilt || status == TargetCached {
 		// We may have parse tasks waiting for this guy to build, check for them.
-		if ch := state.progress.pendingTargets.Get(target.Label); ch != nil {
-			close(ch) // This signals to anyone waiting that it's done.
+		state.closePendingTarget(target.Label)
+	}
+}
+
+// closePendingTarget signals to anyone waiting for the given target (in WaitForBuiltTarget) that it's done,
+// either successfully or not. It is safe to call more than once for the same target.
+func (state *BuildState) closePendingTarget(label BuildLabel) {
+	if ch := state.progress.pendingTargets.Get(label); ch != nil {
+		state.progress.pendingTargetMutex.Lock()
+		defer state.progress.pendingTargetMutex.Unlock()
+		select {
+		case <-ch: // already closed
+		default:
+			close(ch)
 		}
 	}
 }
@@ -611,6 +625,11 @@ func (state *BuildState) LogBuildError(label BuildLabel, status BuildResultStatu
 		Err:         err,
 		Description: fmt.Sprintf(format, args...),
 	})
+	if status == TargetBuildFailed {
+		// Parse tasks may be waiting for this target to build (e.g. for a subinclude); they need to
+		// find out it isn't going to, otherwise they wait forever (which hangs the build with --keep_going).
+		state.closePendingTarget(label)
+	}
 }
 
 // logResult logs a build result directly to the state's queue.
